@@ -487,6 +487,10 @@ def mon_C02(case):
         w = o.split(" ")
         if w[0] in ("restart",):
             lastseq = {}
+        if ln.plain is None:
+            # a peer-to-peer topic which was deleted for good: the same two users may start a new one under the same name, numbered from 1
+            for key in [k for k in lastseq if k[1].startswith("P:") and k[1] not in ln.store]:
+                del lastseq[key]
         if w[0] != "pub" or ln.plain is not None or len(w) < 4:
             # no data frame may appear outside a publish or a history query
             if ln.plain is None and w[0] not in ("get", "sub"):
@@ -1687,6 +1691,11 @@ def mon_C14(case):
         if ln.plain is not None:
             continue
         if ln.held is None:
+            # "request bookkeeping never blocks … a topic forever": a topic is suspended only while something is being done to it
+            for t, c in sorted(ln.cache.items()):
+                if c["inactive"]:
+                    out.append((i, f"C14 [stuck-paused] after `{w[0]}` nothing is queued anywhere but {t} is still suspended: every request to it is "
+                                   f"refused with 503, its sessions can neither leave nor be cleaned up, it never unloads"))
             for sid in sorted(ln.inflight):
                 out.append((i, f"C14 [stuck-inflight] after `{w[0]}` nothing is queued anywhere but session {sid} still has a request in flight: its next "
                                f"{{sub}} or {{leave}} and its cleanup wait for ever"))
